@@ -723,6 +723,8 @@ def run(tier, only=None):
     v9(rep)
     v10(rep)
     v11(rep)
+    from . import lowmask
+    lowmask.report(rep, "V12", ["bitv.c", "intset.c", "table.c", "dnf.c"])
     try:
         v5(rep)
     except AnalysisBroken as e:
